@@ -2716,15 +2716,19 @@ func (e *executor) translateCall(index string, idx *Index, c *pql.Call) error {
 		// are only two possible values. Instead, they are handled
 		// directly.
 		if field.Type() == FieldTypeBool {
-			boolVal, err := callArgBool(c, rowKey)
-			if err != nil {
-				return errors.Wrap(err, "getting bool key")
+			// Calls such as Rows(f), MinRow(field=f) or TopN(f) carry no row
+			// argument at all: there is nothing to translate then.
+			if _, ok := c.Args[rowKey]; ok {
+				boolVal, err := callArgBool(c, rowKey)
+				if err != nil {
+					return errors.Wrap(err, "getting bool key")
+				}
+				rowID := falseRowID
+				if boolVal {
+					rowID = trueRowID
+				}
+				c.Args[rowKey] = rowID
 			}
-			rowID := falseRowID
-			if boolVal {
-				rowID = trueRowID
-			}
-			c.Args[rowKey] = rowID
 		} else if field.keys() {
 			if c.Args[rowKey] != nil && !isString(c.Args[rowKey]) {
 				return errors.New("row value must be a string when field 'keys' option enabled")
